@@ -124,6 +124,53 @@ def run_vector_case(expand_mx):
     return txt, None, None
 
 
+def run_two_pass_case(kind, s_new, s_old, canon, at_b, at_a):
+    """B and A are aliased in a first detect_aliases pass; after constant replacement a second pass finds x = (+-)B:
+    x must end up with the signed intersection over x, B and A"""
+    import pymoca.parser
+    from pymoca.backends.casadi.generator import generate
+    from pymoca.backends.casadi._options import _merge_default_options
+    lines = ["model M", "  %sReal x%s;" % ("input " if kind == "input" else "", attr_txt(canon)), "  Real B%s;" % attr_txt(at_b), "  Real A%s;" % attr_txt(at_a),
+             "  constant Real c = 0;", "equation"]
+    if kind == "state":
+        lines.append("  der(x) = 1;")
+    lines.append("  A = %sB;" % ("-" if s_old < 0 else ""))
+    lines.append("  x = c %s B;" % ("-" if s_new < 0 else "+"))
+    lines.append("end M;")
+    txt = "\n".join(lines) + "\n# simplify(detect_aliases); simplify(replace_constant_values); simplify(detect_aliases)"
+    model = generate(pymoca.parser.parse("\n".join(lines)), "M", _merge_default_options({}))
+    for o in ({"detect_aliases": True}, {"replace_constant_values": True}, {"detect_aliases": True}):
+        model.simplify(_merge_default_options(o))
+    allv = {v.symbol.name(): v for v in model.states + model.alg_states + model.inputs}
+    if "x" not in allv:
+        return txt, "canonical x eliminated; remaining %s" % sorted(allv), None
+    left = [n for n in allv if n in ("A", "B")]
+    if left:
+        return txt, "aliases not eliminated after the second pass: %s" % left, "B and A eliminated"
+    x = allv["x"]
+    m, M, nom, fixed, start, signs = expected(canon, [(s_new, at_b, -1), (s_old, at_a, 0)])
+    got = (num(x.min), num(x.max), num(x.nominal), bool(num(x.fixed)))
+    exp = (float(m), float(M), float(nom), bool(fixed))
+    if got != exp:
+        return txt, "x: min,max,nominal,fixed = %r" % (got,), "%r" % (exp,)
+    if start is not None and num(x.start) != float(start):
+        return txt, "x.start = %r" % num(x.start), "own start %r kept" % start
+    if start is None:
+        cands = {float(sg * at["start"]) for sg, at in zip(signs, (at_b, at_a)) if at.get("start") is not None}
+        if cands and num(x.start) not in cands:
+            return txt, "x.start = %r" % num(x.start), "sign-adjusted start of an alias, one of %s" % sorted(cands)
+    return txt, None, None
+
+
+def two_pass_cases():
+    out = []
+    for kind in ("state", "input"):
+        for s_new in (1, -1):
+            for s_old in (1, -1):
+                out.append(("two-pass", kind, s_new, s_old, {"min": -6.0, "max": 9.0}, {"min": -4.0, "max": 4.0, "nominal": 10.0, "fixed": True, "start": 3.0}, {"max": 2.0, "nominal": 7.0}))
+    return out
+
+
 def cases(tier, seed):
     rng = np.random.RandomState(seed + 16)
     out = []
@@ -160,12 +207,12 @@ def main():
     payload = json.load(sys.stdin)
     tier, seed = payload.get("tier", "quick"), int(payload.get("seed", 0) or 0)
     failures, n = [], 0
-    for c in [("vector", False), ("vector", True)] + cases(tier, seed):
+    for c in [("vector", False), ("vector", True)] + two_pass_cases() + cases(tier, seed):
         n += 1
         try:
-            txt, obs, exp = run_vector_case(c[1]) if c[0] == "vector" else run_case(*c)
+            txt, obs, exp = run_vector_case(c[1]) if c[0] == "vector" else (run_two_pass_case(*c[1:]) if c[0] == "two-pass" else run_case(*c))
         except BaseException as e:  # noqa
-            txt, obs, exp = ("vector model" if c[0] == "vector" else build(*c)), "%s: %s" % (type(e).__name__, str(e)[:120]), "simplify succeeds"
+            txt, obs, exp = ("vector model" if c[0] == "vector" else ("two-pass model %r" % (c[1:4],) if c[0] == "two-pass" else build(*c))), "%s: %s" % (type(e).__name__, str(e)[:120]), "simplify succeeds"
         if obs:
             # negative alias bounds may legitimately make min > max (empty intersection): still the intersection
             failures.append({"class": "alias-metadata", "input": txt, "observed": obs, "expected": exp})
@@ -173,7 +220,7 @@ def main():
                 break
     if payload.get("mode") == "bounded":
         print(json.dumps({"performed": True, "cases": n, "distinct_nontrivial": n, "failures": failures,
-                          "rule": "canonical x (state / algebraic / input) with 1-3 aliases a_i = +-x or +-a_j (chains), bounds one-sided / two-sided / absent, nominals, fixed, starts: systematic pairs plus random chains, plus canonical variables that are elements of an expanded array (seed %d); after the real simplify(detect_aliases) the canonical's min/max/nominal/fixed/start are compared with the signed intersection" % seed,
+                          "rule": "canonical x (state / algebraic / input) with 1-3 aliases a_i = +-x or +-a_j (chains), bounds one-sided / two-sided / absent, nominals, fixed, starts: systematic pairs plus random chains, plus canonical variables that are elements of an expanded array, plus two-pass histories (B~A in a first pass, x = +-B found after constant replacement in a second pass; state / input canonical, all sign pairs) (seed %d); after the real simplify(detect_aliases) the canonical's min/max/nominal/fixed/start are compared with the signed intersection" % seed,
                           "bound": "%d models" % n}))
     else:
         f = failures[0] if failures else None
